@@ -251,3 +251,31 @@ Proof.
     - unfold conn_token. rewrite Hf, canon_idem. apply str_eqb_refl. }
   rewrite E. reflexivity.
 Qed.
+
+(* ------------------------------------------------------------------ trailers *)
+(* every declared trailer field, with every value, reaches the client after the last chunk;
+   trailer fields the origin did not declare are passed on iff at least one was declared
+   (the transport merges them into the same map), otherwise dropped *)
+Theorem trailers_preserved meth r :
+  g_te (go_state meth r) = true ->
+  (forall k vs v, In (k, vs) (r_trailer r) -> In v vs -> is_token k = true ->
+     In (k, sanitize v) (o_trailers (go_obs meth r))) /\
+  (forall k vs v, r_trailer r <> [] -> In (k, vs) (r_late r) -> In v vs -> is_token k = true ->
+     In (k, sanitize v) (o_trailers (go_obs meth r))) /\
+  (r_trailer r = [] -> o_trailers (go_obs meth r) = []).
+Proof.
+  intro Ht. unfold go_obs, go_trailer_fields. cbn [o_trailers]. rewrite Ht.
+  assert (W : forall k, is_token k = true -> written_key [] k = true)
+    by (intros k Hk; unfold written_key; rewrite Hk; reflexivity).
+  assert (G : forall k vs v, In (k, vs) (final_trailer r) -> In v vs -> is_token k = true ->
+            In (k, sanitize v) (map trimf (header_fields [] (final_trailer r)))).
+  { intros k vs v H1 H2 H3. apply in_map_iff. exists (k, sanitize v). split.
+    - unfold trimf. cbn [fst snd]. rewrite sanitize_trimmed. reflexivity.
+    - apply in_header_fields. split; [apply W, H3|]. exists vs, v. auto. }
+  split; [|split].
+  - intros k vs v H1 H2 H3. apply (G k vs v); [|exact H2|exact H3].
+    unfold final_trailer. destruct (r_trailer r); [destruct H1|]. apply in_or_app. left. exact H1.
+  - intros k vs v Hne H1 H2 H3. apply (G k vs v); [|exact H2|exact H3].
+    unfold final_trailer. destruct (r_trailer r); [congruence|]. apply in_or_app. right. exact H1.
+  - intro He. unfold final_trailer. rewrite He. reflexivity.
+Qed.
